@@ -1,4 +1,70 @@
 TEXT = {
+ "C01": {
+  "text": "PARTIAL. Proved: Dhuhr is reported under all 15 policies (every scalar type); get_hour_angle is the stated angle reduced into (-180,180] and the transit fraction is reduced into [0,1) (R); the one-step correction leaves residual H*kappa with kappa=(D1/2+D2(m+m')/2-0.985647)/360, an exact identity, below 0.063 s under an explicit envelope (R); the RA-wrap handling yields the deltas of the unwrapped sequence (R; fails to check when the source sets prev_ra=0); JulianDay::new = civil day number + 1721424.5 - gmt/24 for every Gregorian date (R); tables and sidereal constants equal the frozen Meeus snapshot. Not proved: agreement of the truncated VSOP87 theory with the sky within 10 s - decided by the falsifier against an independent ephemeris on every run.",
+  "design_ref": "DESIGN.md §3.3, §7 C01",
+  "note": "The 10-second clause is a statement about the physical sky; it is explored (independent ephemeris), not proved. Envelope hypotheses of residual_bound are monitored by the falsifier's success, not proved.",
+  "technique": "Lean 4 + Mathlib theorems over R and generic theorems + translator (tables/constants/wrap statements) + bit-level correspondence + independent-ephemeris falsifier",
+ },
+ "C02": {
+  "text": "PARTIAL. Proved: h0 = -0.8333 within 1e-3; the first approximation of rise/set is the hour angle H0 in (0,180) with sin(phi)sin(dec)+cos(phi)cos(dec)cos(H0)=sin(h0) exactly, so Shurooq/Maghrib sit a positive fraction of a day before/after transit (R); weather reaches only Shurooq and Maghrib, never their validity, and absent weather is the default 1010 mbar/14 C (every scalar type). Not proved: size of the Newton correction/refraction term and agreement with the sky (0.05 deg) - falsifier with the independent ephemeris.",
+  "design_ref": "DESIGN.md §7 C02",
+  "note": "Altitude clause explored, not proved; evaluated at the literal reported instant of the requested civil date; before/after noon is read modulo 24 h.",
+  "technique": "Lean 4 + Mathlib theorems over R and generic non-interference theorems + translator + correspondence + independent-ephemeris falsifier",
+ },
+ "C03": {
+  "text": "Proved over R for every latitude/declination with cos(phi)cos(dec)!=0: whenever Fajr (Isha) is reported, sin(phi)sin(dec)+cos(phi)cos(dec)cos(H)=sin(-angle) exactly with H=(Dhuhr-Fajr)/c degrees (resp. Isha-Dhuhr), Fajr<=Dhuhr<=Isha; a larger angle never gives a later Fajr or earlier Isha; for every scalar type Imsaak's computation is Fajr's with angle Fajr+Imsaak (no intervals) and equals that Fajr's time when not extreme; the method table equals the documented one. The 0.5-degree clause against the instantaneous altitude is astronomical: falsifier.",
+  "design_ref": "DESIGN.md §7 C03",
+  "note": "Exactness is over the reals on the model's declination of the date; the float gap is measured by bit-level correspondence; the instantaneous-altitude clause is explored.",
+  "technique": "Lean 4 + Mathlib theorems over R (arccos/sin monotonicity) + generic theorems + translator (method table) + correspondence + falsifier",
+ },
+ "C04": {
+  "text": "Proved over R: whenever Asr is reported the altitude at H=(Asr-Dhuhr)/c is exactly arctan(1/(k+tan|phi-dec|)) = arccot(k + noon shadow), k=1/2 regenerated from the enum; Asr is strictly after Dhuhr; Hanafi Asr strictly later than Shafi Asr; Asr's hour angle is strictly smaller than the first-approximation sunset hour angle (partial w.r.t. the corrected Maghrib). Zenith passage (phi=dec) included (|phi-dec|<90 is the only geometric hypothesis).",
+  "design_ref": "DESIGN.md §7 C04",
+  "note": "Asr < Maghrib is proved against the first approximation of Maghrib; the corrected Maghrib is checked by the falsifier.",
+  "technique": "Lean 4 + Mathlib theorems over R (sin.arctan strictly monotone, arccos strictly antitone) + translator + correspondence + falsifier",
+ },
+ "C05": {
+  "text": "Proved: a result is a record of exactly seven entries; over R Fajr<Dhuhr<Isha strictly, Dhuhr<Asr<Isha strictly, Imsaak<=Fajr (monotonicity at the sum angle), every twilight within 180c hours of Dhuhr, interval-defined Isha/Fajr after Maghrib/before Shurooq, rise/set offset in (0,1/2) day at first approximation (partial for the corrected Shurooq/Maghrib links); for every scalar type, with policy None no entry (Imsaak included) is flagged extreme. The real map's key set and the full chain on the real code: correspondence + falsifier.",
+  "design_ref": "DESIGN.md §7 C05",
+  "note": "Links through the Newton-corrected Shurooq/Maghrib are explored, not proved.",
+  "technique": "Lean 4 + Mathlib theorems over R + generic theorems + correspondence + falsifier",
+ },
+ "C06": {
+  "text": "Proved over R (cos(phi)cos(dec)>0, i.e. off the poles): each validity guard (twilight, rise/set, Asr) holds iff some hour angle puts the Sun at the defining altitude on the date's declination, iff -cos(phi+dec) <= sin(target) <= cos(phi-dec) (target between the day's lowest and highest altitude); for every scalar type policy None without intervals returns exactly the six computed hours unflagged (no fabrication, no withholding). Falsifier: validity vs the independent ephemeris's altitude range with the 0.05-degree exemption up to 89.5 degrees.",
+  "design_ref": "DESIGN.md §7 C06",
+  "note": "The pole itself (cos phi = 0) is outside the R theorems (division by zero is totalised in Mathlib); the property quantifies to 89.5 degrees.",
+  "technique": "Lean 4 + Mathlib theorems over R + generic theorem + correspondence + falsifier",
+ },
+ "C10": {
+  "text": "End-to-end theorems about adj_for_ext_lat for every scalar type: nearest-latitude 'all prayers' writes exactly the conventional hours of the substitute latitude (same day's geocentric ephemeris = from-scratch topocentric day at the substitute coordinates), all flagged; the Fajr/Isha variant exactly those two; seventh of night/day, angle-based and minutes-from-Maghrib give the stated expressions (24-(M-S))/7, (M-S)/7, (angle/60)*(24-M+S), S-FajrInterval, M+IshaInterval, flagged extreme; an interval-defined Isha keeps Maghrib+interval under every policy the interval pass does not skip; replaced values are flagged (Thm C08).",
+  "design_ref": "DESIGN.md §7 C10",
+  "note": "Formulas are stated in the scalar's own arithmetic, hence exact over R; the 3-second agreement on the real code is checked by the falsifier.",
+  "technique": "Lean 4 theorems generic in the scalar type + translator (dispatch/always/exclusion lists) + exhaustive-pattern correspondence + falsifier",
+ },
+ "C12": {
+  "text": "For every scalar type: the six hours and the policy layer never read a minute offset; converting prayer p reads only minutes[p] and the rounding mode; Imsaak's conversion is a Fajr conversion with Fajr's offset (minus the Imsaak interval); interval definitions Isha=Maghrib+interval, Fajr=Shurooq-interval; Imsaak interval => Fajr offset reduced by it; when the reported Fajr is extreme Imsaak is that Fajr minus 1.5 min (or the interval) with its flag; changing the Asr school / Fajr angle / Isha angle / weather changes only the stated entries of get_hours; absent weather = default. Over R an offset of k minutes shifts the unrounded clock by exactly k minutes.",
+  "design_ref": "DESIGN.md §7 C12, §9.2",
+  "note": "Angle/school/weather clauses are stated on get_hours (conventional computation); under replacing policies their scope follows DESIGN 9.2.",
+  "technique": "Lean 4 theorems generic in the scalar type (definitional non-interference) + R floor arithmetic + correspondence + falsifier",
+ },
+ "C13": {
+  "text": "PARTIAL. Proved over R: for every Gregorian date JulianDay::new = civil day number + 1721424.5 - gmt/24 (the code's floor arithmetic equals the day number: omega over 12 month cases), hence consecutive dates are exactly 1 apart across month/year ends and leap days and JulianDay::sub/add land on the Julian Day of the stepped date; the RA-wrap handling yields the deltas of the unwrapped sequence (Thm C01). Not proved: smoothness of the ephemeris itself (second differences of VSOP87) - falsifier over consecutive triples incl. the March equinox days.",
+  "design_ref": "DESIGN.md §7 C13",
+  "note": "Thresholds 5/8/12 s and 4 min are explored on the real code; domain GMT within 4 h of lon/15.",
+  "technique": "Lean 4 + Mathlib theorems over R/Int (floor arithmetic, omega) + translator + correspondence + falsifier",
+ },
+ "C16": {
+  "text": "Proved over R for every latitude/longitude: the reported angle is atan2(K.west, K.north) with K the Kaaba's unit vector and north/west the local tangent unit vectors at the observer (3-D vector formulation; uses cos(latK)>0), i.e. the bearing counted from true north towards west; it lies in (-180,180]; the rotation label is CW iff negative; the function has no elevation input; the Kaaba constants are within 1e-4 of 21.4233N 39.8233E. Falsifier: independent vector bearing within 1e-6 deg, text rendering, elevation independence.",
+  "design_ref": "DESIGN.md §7 C16",
+  "note": "atan2 is modelled by Complex.arg; one open known finding: exactly on the Kaaba's antimeridian floats give -180.0 instead of +180.0.",
+  "technique": "Lean 4 + Mathlib theorem over R (Complex.arg_real_mul) + translator + bit-level correspondence + falsifier",
+ },
+ "C20": {
+  "text": "PARTIAL. Proved over R: the zone offset enters only the Julian Day of local midnight, as -d/24; get_hour_angle, the transit fraction and the parallax hour angle depend on longitude and sidereal time only through their sum (360-periodicity of the normalisations proved), so a site moved east by x with sidereal times lower by x has identical hours. Not proved: the remaining 10 s (the Sun's motion during the shifted interval) - metamorphic falsifier through the public API.",
+  "design_ref": "DESIGN.md §7 C20",
+  "note": "10-second clause explored; domain GMT within 4 h of lon/15 and shifts of at most 1 h (the property's parenthetical: the Sun's own motion during the shifted interval).",
+  "technique": "Lean 4 + Mathlib theorems over R + correspondence + metamorphic falsifier",
+ },
  "C09": {
   "text": "Theorems for EVERY scalar type and an ARBITRARY day->hours function: the outward search returns the hours of date-i or date+i for the smallest i<=bound at which either has both twilights, date-i first (closest date, earlier on ties); it fails iff no date within the bound is good; the bound regenerated from ext_lat.rs is the length of the year; the all-prayers variant writes all six times of that date flagged extreme, the default variant exactly the missing twilights (flagged), leaving everything else untouched. The search/writers are tied to the code by the exhaustive-pattern extlat correspondence and adj; the falsifier compares with policy None on neighbouring dates to the second.",
   "design_ref": "DESIGN.md §7 C09",
